@@ -448,6 +448,61 @@ def full_analysis_unit(res):
     return res
 
 
+def run_dispatch_unit(res):
+    """P: osaca.run and osaca.import_data (real code; argparse namespace as a ghost object with symbolic option values): exactly one
+    of the four activities runs - the database check iff --db-check (with the arch, verbose iff -v given at least once, the
+    internet option and the output stream), else the import iff an import was requested (benchmark kind, arch, the file's name and
+    the output stream unchanged; 'ibench' / 'asmbench' in any letter case select the reader, anything else is refused), else the
+    marker insertion iff asked for, else the analysis with the same arguments and output stream."""
+    ex = Engine([REPO + "/" + OS])
+    check_db, has_import, marker, inet = z3.Bools("check_db import_requested insert_marker internet_check")
+    verbose = z3.Int("verbose_count")
+    for kind in ("ibench", "IBench", "asmbench", "ASMBENCH", "other"):
+        def run(kind=kind):
+            log = []
+            fobj = SObj("File", name="the/file.s")
+
+            class Args:
+                def sym_getattr(self, ex_, attr):
+                    return {"check_db": SBool(check_db), "verbose": SNum(verbose, True), "arch": "zen2", "internet_check": SBool(inet),
+                            "import_data": kind, "file": fobj, "insert_marker": SBool(marker)}[attr]
+
+                def sym_contains(self, ex_, item):
+                    if item == "import_data":
+                        return SBool(has_import)
+                    raise Unsupported("membership test on the argument namespace: " + str(item))
+
+            args, out = Args(), SObj("Stream")
+            for nm in ("sanity_check", "import_benchmark_output", "insert_byte_marker", "inspect"):
+                ex.abstract[nm] = (lambda nm: lambda ex_, so, a, kw: log.append((nm, list(a), dict(kw))))(nm)
+            ex.extra.update(log=log, args=args, out=out)
+            return ex.call_function("run", [args], kw=dict(output_file=out))
+
+        paths = ex.explore(run, [verbose >= 0])
+
+        def post(v, p, kind=kind):
+            log, args, out = p.extra["log"], p.extra["args"], p.extra["out"]
+            if len(log) != 1:
+                return False
+            nm, a, kw = log[0]
+            allargs = lambda names: dict(zip(names, a), **kw)
+            if nm == "sanity_check":
+                g = allargs(["arch", "verbose", "internet_check", "output_file"])
+                ok = g.get("arch") == "zen2" and g.get("output_file") is out
+                return z3.And(check_db, z3.BoolVal(bool(ok)), bool_term(g.get("verbose", False)) == (verbose > 0), bool_term(g.get("internet_check", False)) == inet)
+            if nm == "import_benchmark_output":
+                g = allargs(["arch", "bench_type", "filepath", "output"])
+                ok = g.get("arch") == "zen2" and g.get("filepath") == "the/file.s" and g.get("output") is out and g.get("bench_type") == kind.lower() and kind != "other"
+                return z3.And(z3.Not(check_db), has_import, z3.BoolVal(bool(ok)))
+            if nm == "insert_byte_marker":
+                return z3.And(z3.Not(check_db), z3.Not(has_import), marker, z3.BoolVal(a[0] is args))
+            g = allargs(["args", "output_file"])
+            return z3.And(z3.Not(check_db), z3.Not(has_import), z3.Not(marker), z3.BoolVal(g.get("args") is args and g.get("output_file") is out))
+
+        res.add_paths(paths, post, exc_ok=lambda p, kind=kind: kind == "other" and p.outcome[1] == "NotImplementedError", kind=f"run/import-kind={kind}")
+    return res
+
+
 def lcd_list_unit(res):
     """Pb: Frontend.loopcarried_dependencies (the LCD list of the text report) for 0-3 loop-carried dependencies with symbolic
     latencies: exactly one row per dependency (in any order), each showing the first member's line number, the
@@ -507,6 +562,7 @@ def units(tier):
         Unit("C13/_get_port_pressure(cell i shows pressure i or is blank)", pressure_cells_unit, "Pb", [(FE, "Frontend._get_port_pressure")], decisive=False),
         Unit("C13/detect_ISA(majority of register-name matches)", detect_isa_unit, "P", [("osaca/parser/base_parser.py", "BaseParser.detect_ISA")], decisive=False),
         Unit("C13/full_analysis(assembly of the text report)", full_analysis_unit, "P", [(FE, "Frontend.full_analysis")], decisive=False),
+        Unit("C13/run(dispatch of the command line)", run_dispatch_unit, "P", [(OS, "run"), (OS, "import_data")], decisive=False),
         Unit("C13/loopcarried_dependencies(LCD list rows)", lcd_list_unit, "Pb", [(FE, "Frontend.loopcarried_dependencies")], decisive=False),
         Unit("C13/inspect/warning-flags-and-report-wiring", _inspect_unit(), "P", [(OS, "inspect")], decisive=False),
         bounded_unit("C13/report-vs-dict", "c13_report", [(FE, "Frontend.combined_view"), (FE, "Frontend.full_analysis_dict"), (FE, "Frontend.loopcarried_dependencies"),
